@@ -531,3 +531,66 @@ MON_SUB_IDX (sub_fov<float>, "fov_set_modify_float", 1000000, 30000000).req ({C1
 MON_SUB_IDX (sub_fov<double>, "fov_set_modify_double", 1000000, 30000000).req ({C16_FRUSTUM_CLASSES, "set_fovx", "set_fovy", "modify_orthographic", "modify_perspective"}).over ("as fov_set_modify_float, double");
 MON_SUB_IDX (sub_window<float>, "window_float", 1000000, 30000000).req ({C16_FRUSTUM_CLASSES, "full_window", "sub_window"}).over ("random frusta x random screen rectangle: the edges of window(l,r,t,b) sit at screen positions l,r,t,b of the original frustum; near/far/kind kept");
 MON_SUB_IDX (sub_window<double>, "window_double", 1000000, 30000000).req ({C16_FRUSTUM_CLASSES, "full_window", "sub_window"}).over ("as window_float, double");
+
+// ------------------------------------------------------------------ the ...Exc spellings
+// Every relation above is judged on the noexcept spelling.  The throwing spellings are separate copies of the code; whenever one
+// of them returns, its value must be the noexcept twin's bit for bit (so that it satisfies the same relations).  Added after the
+// seeded changes C16-6, C16-7, C16-8, which were confined to projectionMatrixExc / projectPointToScreenExc / ZToDepthExc.
+template <class T>
+void
+sub_exc_spellings (Ctx& c, uint64_t idx)
+{
+    Rng   r = c.rng (idx);
+    FC<T> fc;
+    if (!gen_frustum (r, idx, fc)) { c.cls ("skipped_degenerate"); return; }
+    count_classes (c, fc);
+    Frustum<T> fr = fc.fr ();
+    c.nontrivial (hash_combine (fc.hash (), idx));
+    auto same = [] (T a, T b) { return (a != a && b != b) || std::memcmp (&a, &b, sizeof (T)) == 0; };
+    auto fail = [&] (const char* fn, const char* what, double got, double want) {
+        c.fail (key<T> (fn, what), idx, [&] { return Obj ().raw ("frustum", fc.js ()).kv ("exc_spelling", got).kv ("noexcept_spelling", want).str (); });
+    };
+    for (int q = 0; q < 3; ++q)
+    {
+        Vec3<T> p = toT<T> (gen_point (r, fc, true));
+        if (!fc.ortho && !(p.z < 0)) { c.cls ("skipped_behind_camera"); continue; }
+        c.eval ();
+        // projectPointToScreen
+        try
+        {
+            Vec2<T> a = fr.projectPointToScreenExc (p), b = fr.projectPointToScreen (p);
+            c.cls ("projectPointToScreenExc_returned");
+            if (!same (a.x, b.x) || !same (a.y, b.y)) fail ("projectPointToScreenExc", fc.ortho ? "differs_orthographic" : "differs_perspective", (double) a.x, (double) b.x);
+        }
+        catch (const std::exception&) { c.cls ("projectPointToScreenExc_threw"); }
+        // screenRadius / worldRadius
+        T rad = (T) r.logscale (-3, 1);
+        try { T a = fr.screenRadiusExc (p, rad), b = fr.screenRadius (p, rad); c.cls ("screenRadiusExc_returned"); if (!same (a, b)) fail ("screenRadiusExc", "differs", (double) a, (double) b); }
+        catch (const std::exception&) { c.cls ("screenRadiusExc_threw"); }
+        try { T a = fr.worldRadiusExc (p, rad), b = fr.worldRadius (p, rad); c.cls ("worldRadiusExc_returned"); if (!same (a, b)) fail ("worldRadiusExc", "differs", (double) a, (double) b); }
+        catch (const std::exception&) { c.cls ("worldRadiusExc_threw"); }
+        // depth mapping: normalised z, integer z (interior, ends, ranges with a non-zero minimum) and back
+        T nz = (T) r.uniform (-1, 1);
+        try { T a = fr.normalizedZToDepthExc (nz), b = fr.normalizedZToDepth (nz); c.cls ("normalizedZToDepthExc_returned"); if (!same (a, b)) fail ("normalizedZToDepthExc", "differs", (double) a, (double) b); }
+        catch (const std::exception&) { c.cls ("normalizedZToDepthExc_threw"); }
+        static const long ZR[4][2] = {{0, 255}, {0, 65535}, {1, 100}, {-32768, 32767}};
+        const long* zr = ZR[(idx + q) % 4];
+        long        zv = q == 0 ? zr[0] : q == 1 ? zr[1] : zr[0] + (long) r.range (1, zr[1] - zr[0] - 1);
+        c.cls (zv == zr[0] || zv == zr[1] ? "integer_z_at_an_end" : "integer_z_interior");
+        try
+        {
+            T a = fr.ZToDepthExc (zv, zr[0], zr[1]), b = fr.ZToDepth (zv, zr[0], zr[1]);
+            c.cls ("ZToDepthExc_returned");
+            if (!same (a, b)) fail ("ZToDepthExc", zv == zr[0] || zv == zr[1] ? "differs_at_an_end" : "differs_interior", (double) a, (double) b);
+            long za = fr.DepthToZExc (b, zr[0], zr[1]), zb = fr.DepthToZ (b, zr[0], zr[1]);
+            c.cls ("DepthToZExc_returned");
+            if (za != zb) fail ("DepthToZExc", "differs", (double) za, (double) zb);
+        }
+        catch (const std::exception&) { c.cls ("ZToDepthExc_or_DepthToZExc_threw"); }
+    }
+    try { T a = fr.aspectExc (), b = fr.aspect (); c.cls ("aspectExc_returned"); if (!same (a, b)) fail ("aspectExc", "differs", (double) a, (double) b); }
+    catch (const std::exception&) { c.cls ("aspectExc_threw"); }
+}
+#define EXC_REQ {C16_FRUSTUM_CLASSES, "projectPointToScreenExc_returned", "screenRadiusExc_returned", "worldRadiusExc_returned", "normalizedZToDepthExc_returned", "ZToDepthExc_returned", "DepthToZExc_returned", "aspectExc_returned", "integer_z_interior", "integer_z_at_an_end"}
+MON_SUB_IDX (sub_exc_spellings<float>, "exc_spellings_float", 300000, 10000000).req (EXC_REQ).over ("random frusta x 3 points / depths: each ...Exc spelling that returns equals its noexcept twin bit for bit (projectPointToScreen, screenRadius, worldRadius, normalizedZToDepth, ZToDepth incl. interior integer z and ranges with a non-zero minimum, DepthToZ, aspect)");
+MON_SUB_IDX (sub_exc_spellings<double>, "exc_spellings_double", 300000, 10000000).req (EXC_REQ).over ("as exc_spellings_float, double");
